@@ -7,7 +7,7 @@ SO = '/tmp/seed-out'
 rows = []
 for d in sorted(glob.glob(os.path.join(SO, 'C[0-9][0-9]-[0-9]'))):
     sid = os.path.basename(d)
-    runs = sorted(glob.glob(os.path.join(SO, sid + '.result')) + glob.glob(os.path.join(SO, sid + '.r[0-9]*')))
+    runs = glob.glob(os.path.join(SO, sid + '.result')) + sorted(glob.glob(os.path.join(SO, sid + '.r[0-9]*')), key=lambda x: int(x.rsplit('.r', 1)[1]))
     conf, checks = None, {}
     for r in runs:
         try:
